@@ -33,20 +33,45 @@ def run(rep):
         g, m = cases + ".go", cases + ".ml"
         verif.parallel_map_files([os.path.join(verif.BUILD, "selectcount")], cases, g, timeout=3000)
         verif.parallel_map_files([os.path.join(verif.BUILD, "selectcount_driver")], cases, m, timeout=3000, unlimited_stack=True)
-        n_sel, diffs, mism = verif.diff_lines(g, m)
-        if mism or rc != 0:
-            broken.append({"obligation": "correspondence:internal/explain/select.go~SelectExplainModel", "detail": "%d of %d cases differ: %s %s" % (mism, n_sel, diffs[:3], out[-300:])})
-        # header != direct children on the real code for union / insert / explain / create kinds is a count defect
-        bad_hdr = 0
-        with open(cases) as fc, open(g) as fg:
-            for c, o in zip(fc, fg):
-                p = o.rstrip("\n").split("\t")
-                if len(p) >= 2 and p[0] != p[1] and not c.startswith("S"):
+        n_sel = mism = bad_hdr = 0
+        first_diff = []
+
+        def absent(ch):
+            return ch in "0e"
+
+        def inv_limit_violated(spec):
+            # positions (0-based) 17 LimitBy, 18 LimitByLimit, 19 LimitByOffset, 20 Offset of the 25-char select spec
+            if len(spec) < 21:
+                return False
+            lb, lbl, lbo, off = spec[17], spec[18], spec[19], spec[20]
+            return (absent(lbl) and not absent(lbo)) or (absent(lbl) and not absent(lb) and not absent(off))
+
+        with open(cases) as fc, open(g) as fg, open(m) as fm:
+            for c, o, mo in verif.itertools_zip3(fc, fg, fm):
+                n_sel += 1
+                p = o.split("\t")
+                flag = p[-1] if p else ""
+                if flag == "M" and o != mo:
+                    mism += 1
+                    if len(first_diff) < 3:
+                        first_diff.append((c[:80], o[:80], mo[:80]))
+                if len(p) >= 2 and p[0].isdigit() and p[1].isdigit() and p[0] != p[1]:
+                    kind = c[:1]
+                    spec = c.split()[-1] if c.split() else ""
+                    if kind in "SWV" and inv_limit_violated(spec):
+                        continue      # the parser never builds LimitByOffset/Offset without LimitByLimit (invariant inv_limit of C04_select)
                     bad_hdr += 1
                     if bad_hdr <= 5:
                         found = True
                         rep.violation("input", "(children N) differs from the number of printed children for AST spec " + c.strip()[:100],
                                       {"ast_spec": c.strip(), "header": p[0], "direct_children": p[1]}, input_hex=c.strip().encode().hex())
+                elif p and p[0] in ("PANIC", "NOSUBTREE"):
+                    bad_hdr += 1
+                    if bad_hdr <= 5:
+                        found = True
+                        rep.violation("input", "printer %s on AST spec %s" % (p[0], c.strip()[:100]), {"ast_spec": c.strip()}, input_hex=c.strip().encode().hex())
+        if mism or rc != 0:
+            broken.append({"obligation": "correspondence:internal/explain/select.go~SelectExplainModel", "detail": "%d of %d cases differ: %s %s" % (mism, n_sel, first_diff, out[-300:])})
         # (2) verified checker on the real EXPLAIN output of VALID statements (the property quantifies over syntactically valid
         # statements: corpus statements; mutants accepted by the permissive parser are not in its scope and belong to C03)
         tin = os.path.join(verif.BUILD, "tree_in.txt")
@@ -56,8 +81,15 @@ def run(rep):
             rc3, out3 = verif.sh("%s gen -mode corpus -n 0 | %s" % (searchcommon.PSEARCH, os.path.join(verif.BUILD, "explaindump")), shell=True, timeout=1200)
         else:
             rc3, out3 = verif.sh([os.path.join(verif.BUILD, "explaindump"), "-corpus", os.path.join(verif.REPO, "parser", "testdata")], timeout=3000)
+        ngram = 20000 if quick else 400000
+        rc4, out4 = verif.sh("python3 %s %d %d --hex | %s -v" % (os.path.join(verif.ROOT, "checks", "gen_sql_grammar.py"), rep.seed, ngram, os.path.join(verif.BUILD, "explaindump")),
+                             shell=True, timeout=3000)
+        gram_lines = out4.splitlines()
+        gram_err = sum(1 for l in gram_lines if l.endswith("\tERR") or l.endswith("\tPARSEPANIC"))
+        if rc4 != 0:
+            broken.append({"obligation": "harness:gen_sql_grammar|explaindump", "detail": out4[-500:]})
         with open(tin, "w") as ft:
-            for line in out3.splitlines():
+            for line in out3.splitlines() + gram_lines:
                 p = line.split("\t")
                 if len(p) >= 2 and p[-1] not in ("ERR", "PANIC", "PARSEPANIC"):
                     ft.write(p[0] + "\t" + p[-1] + "\n")
@@ -67,24 +99,38 @@ def run(rep):
                             samples.append(bytes.fromhex(p[0]).decode("utf-8", "replace")[:140])
                         except ValueError:
                             pass
-        res = {"samples": samples, "counts": {"explained": n_txt}}
+        res = {"samples": samples, "counts": {"explained": n_txt, "grammar_statements": len(gram_lines), "grammar_rejected_by_parser": gram_err}}
         tout = tin + ".out"
         rc2, e2 = verif.parallel_map_files([os.path.join(verif.BUILD, "tree_driver")], tin, tout, timeout=6000, unlimited_stack=True)
         verdicts = {}
+        texts = {}
+        with open(tin) as f:
+            for line in f:
+                q = line.rstrip("\n").split("\t")
+                if len(q) >= 2 and q[0] not in texts:
+                    try:
+                        texts[q[0]] = bytes.fromhex(q[-1]).decode("utf-8", "replace")[:200]
+                    except ValueError:
+                        pass
         with open(tout) as f:
             for line in f:
                 p = line.rstrip("\n").split("\t")
                 v = p[-1]
                 verdicts[v] = verdicts.get(v, 0) + 1
-                if v.startswith("bad") and verdicts[v] <= 5:
-                    found = True
+                if v.startswith("bad"):
                     sql = bytes.fromhex(p[0] if p[0] != "-" else "").decode("utf-8", "replace")
-                    rep.violation("input", "EXPLAIN text rejected by the verified checker (%s): %s" % (v, sql[:150]), {"input_hex": p[0], "verdict": v}, input_hex=p[0])
+                    key = None
+                    if v == "bad:kind" and sql.strip().upper().startswith("SHOW") and texts.get(p[0], "").split("\n")[0].strip() in ("Show", "ShowProcesslist"):
+                        key = "show-kinds"
+                    if key is None and verdicts[v] > 8:
+                        continue
+                    found = found or (rep.is_known(key=key) is None)
+                    rep.violation("input", "EXPLAIN text rejected by the verified checker (%s): %s" % (v, sql[:150]), {"input_hex": p[0], "verdict": v}, input_hex=p[0], key=key)
         if rc2 != 0:
             broken.append({"obligation": "driver:tree", "detail": e2[-500:]})
         rep.coverage.update({
             "evaluations": n_txt + n_sel, "distinct_nontrivial": n_txt,
-            "rule": "EXPLAIN text of every corpus statement (quick: the 9.7k-statement sample in /verif/corpus; thorough: every statement of every enabled parser/testdata/*/query.sql) run through the extracted verified checker check_text with the node kinds of the goldens; "
+            "rule": "EXPLAIN text of every corpus statement (quick: the 9.7k-statement sample in /verif/corpus; thorough: every statement of every enabled parser/testdata/*/query.sql) and of 20k (quick) / 400k (thorough) statements of the verification grammar (checks/gen_sql_grammar.py: SELECT with every clause subset, set operations, INSERT, CREATE, ALTER, utility statements, :: literals, nesting to 300 levels) run through the extracted verified checker check_text with the node kinds of the goldens; "
                     "plus Go-vs-model comparison of header count / printed children / text hash on SelectQuery, union, intersect, INSERT, EXPLAIN and CREATE ASTs built directly (exhaustive 2^16 / 2^13 field combinations in the thorough tier); distinct_nontrivial = texts checked",
             "samples": res["samples"], "verdicts": verdicts, "select_model_cases": n_sel, "select_model_mismatches": mism, "status_counts": res["counts"],
             "trusted_base": TRUSTED,
